@@ -439,7 +439,11 @@ def eval_order(e):
     def rec(x):
         if x is None:
             return
-        if isinstance(x, (ast.Lambda, ast.GeneratorExp, ast.ListComp, ast.SetComp, ast.DictComp)):
+        if isinstance(x, (ast.ListComp, ast.SetComp, ast.DictComp)):
+            rec(x.generators[0].iter)       # evaluated at once, in the enclosing scope
+            out.append(x)
+            return
+        if isinstance(x, (ast.Lambda, ast.GeneratorExp)):
             out.append(x)
             return
         if isinstance(x, ast.IfExp):
@@ -524,6 +528,8 @@ def _split_ifexp(func):
         for i, st in enumerate(block):
             if not isinstance(st, (ast.Return, ast.Assign, ast.Expr, ast.AugAssign, ast.Raise)):
                 continue
+            if isinstance(st, ast.Assign) and len(st.targets) == 1 and isinstance(st.targets[0], ast.Name):
+                continue        # a local keeps the conditional expression (canonical form of `if c: t = a else: t = b`)
             exprs = _stmt_exprs(st) or []
             target = None
             for e in exprs:
@@ -567,10 +573,104 @@ def inline_next_use(func):
                     exprs = _stmt_exprs(nx)
                     if exprs is not None and any(any(n is use for n in ast.walk(e)) for e in exprs) and not _impure_before(nx, use) \
                             and not any(isinstance(a, (ast.IfExp, ast.BoolOp, ast.Lambda, ast.GeneratorExp, ast.ListComp, ast.SetComp, ast.DictComp)) and any(n is use for n in ast.walk(a)) and a is not use
+                                        and not (isinstance(a, (ast.ListComp, ast.SetComp, ast.DictComp)) and a.generators[0].iter is use)
                                         for e in exprs for a in ast.walk(e)):
                         _replace_node(nx, use, st.value)
                         del block[i]
                         params, stores, loads = _defs_and_uses(func)
+                        changed = True
+                        continue
+            i += 1
+    return changed
+
+
+def assignments_to_ifexp(func):
+    """`if c: t = A else: t = B`  and  `t = B; if c: t = A`  (t a local name, B free of side effects) become
+    `t = A if c else B`; `a, b = x, y` (no target read on the right) becomes `a = x; b = y`; `a = b = v` (v a constant)
+    becomes two assignments."""
+    changed = False
+    for owner, block in _all_blocks(func):
+        i = 0
+        while i < len(block):
+            st = block[i]
+            # chained assignment of a constant
+            if isinstance(st, ast.Assign) and len(st.targets) > 1 and isinstance(st.value, ast.Constant) and all(isinstance(t, ast.Name) for t in st.targets):
+                new = [ast.Assign(targets=[t], value=copy.deepcopy(st.value)) for t in st.targets]
+                for n in new:
+                    ast.copy_location(n, st)
+                    ast.fix_missing_locations(n)
+                block[i:i + 1] = new
+                changed = True
+                continue
+            # tuple display assignment
+            if isinstance(st, ast.Assign) and len(st.targets) == 1 and isinstance(st.targets[0], ast.Tuple) and isinstance(st.value, ast.Tuple) \
+                    and len(st.targets[0].elts) == len(st.value.elts) and all(isinstance(t, ast.Name) for t in st.targets[0].elts):
+                tn = {t.id for t in st.targets[0].elts}
+                if not any(isinstance(n, ast.Name) and n.id in tn for v in st.value.elts for n in ast.walk(v)) and not any(isinstance(v, ast.Starred) for v in st.value.elts):
+                    new = [ast.Assign(targets=[t], value=v) for t, v in zip(st.targets[0].elts, st.value.elts)]
+                    for n in new:
+                        ast.copy_location(n, st)
+                        ast.fix_missing_locations(n)
+                    block[i:i + 1] = new
+                    changed = True
+                    continue
+            if isinstance(st, ast.If):
+                def single_assign(br):
+                    if len(br) == 1 and isinstance(br[0], ast.Assign) and len(br[0].targets) == 1 and isinstance(br[0].targets[0], ast.Name):
+                        return br[0].targets[0].id, br[0].value
+                    return None, None
+                ta, va = single_assign(st.body)
+                tb, vb = single_assign(st.orelse)
+                if ta is not None and ta == tb:
+                    new = ast.Assign(targets=[ast.Name(id=ta, ctx=ast.Store())], value=ast.IfExp(test=st.test, body=va, orelse=vb))
+                    ast.copy_location(new, st)
+                    ast.fix_missing_locations(new)
+                    block[i] = new
+                    changed = True
+                    continue
+                # default then override
+                if ta is not None and not st.orelse and i > 0:
+                    prev = block[i - 1]
+                    if isinstance(prev, ast.Assign) and len(prev.targets) == 1 and isinstance(prev.targets[0], ast.Name) and prev.targets[0].id == ta and is_pure(prev.value) \
+                            and not any(isinstance(n, ast.Name) and n.id == ta for n in ast.walk(st.test)) and not any(isinstance(n, ast.Name) and n.id == ta for n in ast.walk(va)) \
+                            and not interferes(ast.Expr(value=st.test), read_chains(prev.value)):
+                        new = ast.Assign(targets=[ast.Name(id=ta, ctx=ast.Store())], value=ast.IfExp(test=st.test, body=va, orelse=prev.value))
+                        ast.copy_location(new, st)
+                        ast.fix_missing_locations(new)
+                        block[i - 1:i + 1] = [new]
+                        changed = True
+                        i -= 1
+                        continue
+            i += 1
+    return changed
+
+
+def loops_to_comprehensions(func):
+    """`x = [..]` followed by `for t in it: [if c:] x.append(e)` (t not used afterwards) is `x = [..] + [e for t in it if c]`"""
+    changed = False
+    for owner, block in _all_blocks(func):
+        i = 0
+        while i + 1 < len(block):
+            a, lp = block[i], block[i + 1]
+            if isinstance(a, ast.Assign) and len(a.targets) == 1 and isinstance(a.targets[0], ast.Name) and isinstance(a.value, ast.List) \
+                    and isinstance(lp, ast.For) and not lp.orelse and len(lp.body) == 1:
+                x = a.targets[0].id
+                body = lp.body[0]
+                cond = None
+                if isinstance(body, ast.If) and not body.orelse and len(body.body) == 1:
+                    cond, body = body.test, body.body[0]
+                if isinstance(body, ast.Expr) and isinstance(body.value, ast.Call) and isinstance(body.value.func, ast.Attribute) and body.value.func.attr == 'append' \
+                        and isinstance(body.value.func.value, ast.Name) and body.value.func.value.id == x and len(body.value.args) == 1 and not body.value.keywords:
+                    elt = body.value.args[0]
+                    tnames = {n.id for n in ast.walk(lp.target) if isinstance(n, ast.Name)}
+                    uses_x = any(isinstance(n, ast.Name) and n.id == x for part in ([elt, lp.iter] + ([cond] if cond is not None else [])) for n in ast.walk(part))
+                    later = [n for s_ in block[i + 2:] for n in ast.walk(s_) if isinstance(n, ast.Name) and n.id in tnames]
+                    outer_uses = [n for n in ast.walk(func) if isinstance(n, ast.Name) and n.id in tnames and not any(n is y for y in ast.walk(lp))]
+                    if not uses_x and not later and not outer_uses:
+                        comp = ast.ListComp(elt=elt, generators=[ast.comprehension(target=lp.target, iter=lp.iter, ifs=[cond] if cond is not None else [], is_async=0)])
+                        a.value = comp if not a.value.elts else ast.BinOp(left=a.value, op=ast.Add(), right=comp)
+                        ast.fix_missing_locations(a)
+                        del block[i + 1]
                         changed = True
                         continue
             i += 1
@@ -720,6 +820,17 @@ def _between(func, def_stmt, use_node):
     return out
 
 
+def _allocates(e):
+    """the value is a new mutable object: its identity matters, it cannot be written out twice"""
+    if isinstance(e, (ast.List, ast.Dict, ast.Set, ast.ListComp, ast.SetComp, ast.DictComp)):
+        return True
+    if isinstance(e, ast.Call) and isinstance(e.func, ast.Name) and e.func.id in ('list', 'dict', 'set', 'bytearray', 'sorted'):
+        return True
+    if isinstance(e, ast.Call) and isinstance(e.func, ast.Attribute) and e.func.attr in ('copy', 'split', 'rsplit', 'splitlines', 'keys', 'values', 'items'):
+        return True
+    return False
+
+
 def inline_temps(func):
     """substitute single-definition pure locals into their uses where nothing in between can change what they read"""
     changed_any = False
@@ -733,6 +844,20 @@ def inline_temps(func):
                 t = st.targets[0].id
                 if t in params or len(stores.get(t, [])) != 1 or not is_pure(st.value) or _has_nested_scope_use(func, t):
                     continue
+                if _allocates(st.value):
+                    # a new object may be written out in place of its name only if that happens once per definition
+                    us = loads.get(t, [])
+                    if len(us) != 1:
+                        continue
+                    up = _stmt_path(func, us[0]) or []
+                    dp = _stmt_path(func, st) or []
+                    loops_u = [id(x[2]) for x in up if isinstance(x[2], (ast.For, ast.AsyncFor, ast.While))]
+                    loops_d = [id(x[2]) for x in dp if isinstance(x[2], (ast.For, ast.AsyncFor, ast.While))]
+                    if loops_u != loops_d[:len(loops_u)] or len(loops_u) != len(loops_d):
+                        continue
+                    if any(isinstance(a_, (ast.ListComp, ast.SetComp, ast.DictComp, ast.GeneratorExp, ast.Lambda)) and any(n is us[0] for n in ast.walk(a_)) and not (a_.generators[0].iter is us[0] if hasattr(a_, 'generators') else False)
+                           for a_ in ast.walk(func)):
+                        continue
                 if any(isinstance(n, ast.Name) and n.id == t for n in ast.walk(st.value)):
                     continue
                 uses = loads.get(t, [])
@@ -969,6 +1094,10 @@ def _atoms(cond, then, other, budget):
             return _atoms(c2, other, then, budget)
     if isinstance(cond, ast.Constant) and not isinstance(cond.value, (str, bytes)):
         return then if cond.value else other
+    if isinstance(cond, (ast.Name, ast.Attribute)) and chain(cond) in _SIZED[0]:
+        # a list / dict / set / tuple / string is false exactly when it is empty
+        c2 = ast.Compare(left=ast.Call(func=ast.Name(id='len', ctx=ast.Load()), args=[cond], keywords=[]), ops=[ast.Eq()], comparators=[ast.Constant(value=0)])
+        return _atoms(c2, other, then, budget)
     return (('if', cx(cond), then, other),)
 
 
@@ -1055,12 +1184,86 @@ def _signature(f):
     return ast.unparse(a)
 
 
-def canonical(func, helpers=None):
+def _is_container_value(v):
+    if isinstance(v, (ast.List, ast.Dict, ast.Set, ast.Tuple, ast.ListComp, ast.DictComp, ast.SetComp)):
+        return True
+    if isinstance(v, ast.Constant) and isinstance(v.value, (str, bytes)):
+        return True
+    if isinstance(v, ast.Call) and isinstance(v.func, ast.Name) and v.func.id in ('list', 'dict', 'set', 'tuple', 'bytes', 'bytearray', 'str', 'sorted'):
+        return True
+    return False
+
+
+def sized_chains(scope_nodes):
+    """attribute chains / names that are only ever bound to lists, dicts, sets, tuples, strings: for those `not x` is
+    `len(x) == 0`.  scope_nodes: the functions whose assignments count (all methods of the class for self attributes)."""
+    ok, bad = set(), set()
+    for f in scope_nodes:
+        for n in ast.walk(f):
+            pairs = []
+            if isinstance(n, ast.Assign):
+                pairs = [(t, n.value) for t in n.targets]
+            elif isinstance(n, ast.AnnAssign) and n.value is not None:
+                pairs = [(n.target, n.value)]
+            elif isinstance(n, ast.AugAssign):
+                pairs = [(n.target, None)] if not isinstance(n.op, ast.Add) else []
+            elif isinstance(n, (ast.For, ast.AsyncFor)):
+                pairs = [(x, None) for x in ast.walk(n.target) if isinstance(x, (ast.Name, ast.Attribute))]
+            elif isinstance(n, (ast.With, ast.AsyncWith)):
+                pairs = [(i.optional_vars, None) for i in n.items if i.optional_vars is not None]
+            for t, v in pairs:
+                if isinstance(t, (ast.Tuple, ast.List)):
+                    for x in t.elts:
+                        c = chain(x)
+                        if c:
+                            bad.add(c)
+                    continue
+                c = chain(t) if isinstance(t, (ast.Name, ast.Attribute)) else None
+                if c is None:
+                    continue
+                (ok if v is not None and _is_container_value(v) else bad).add(c)
+        if isinstance(f, (ast.FunctionDef, ast.AsyncFunctionDef)):
+            for p_ in _params(f):
+                bad.add((p_,))
+    return ok - bad
+
+
+def module_constants(tree):
+    """module-level names bound exactly once to a number / string / bytes / bool / None literal (or its negation)"""
+    count, val = {}, {}
+    for n in ast.walk(tree):
+        if isinstance(n, ast.Name) and isinstance(n.ctx, (ast.Store, ast.Del)):
+            count[n.id] = count.get(n.id, 0) + 1
+        elif isinstance(n, (ast.FunctionDef, ast.AsyncFunctionDef, ast.ClassDef)):
+            count[n.name] = count.get(n.name, 0) + 1
+        elif isinstance(n, ast.alias):
+            nm = (n.asname or n.name).split('.')[0]
+            count[nm] = count.get(nm, 0) + 1
+    for st in tree.body:
+        tg = None
+        if isinstance(st, ast.Assign) and len(st.targets) == 1 and isinstance(st.targets[0], ast.Name):
+            tg, v = st.targets[0].id, st.value
+        elif isinstance(st, ast.AnnAssign) and isinstance(st.target, ast.Name) and st.value is not None:
+            tg, v = st.target.id, st.value
+        if tg is None:
+            continue
+        if isinstance(v, ast.UnaryOp) and isinstance(v.op, ast.USub) and isinstance(v.operand, ast.Constant) and isinstance(v.operand.value, (int, float)):
+            v = ast.Constant(value=-v.operand.value)
+        if isinstance(v, ast.Constant) and count.get(tg) == 1:
+            val[tg] = v
+    return val
+
+
+_SIZED = [frozenset()]
+
+
+def canonical(func, helpers=None, consts=None, sized=None):
     """canonical form (text) of a function, or None if it cannot be built.
     helpers: name -> (FunctionDef, is_method) of functions that may be pasted into the body (those the other version of the
     module does not define)."""
     import re
     try:
+        _SIZED[0] = frozenset(sized or ())
         f = copy.deepcopy(func)
         for n in ast.walk(f):
             n.__dict__.pop('_parent', None)
@@ -1071,6 +1274,9 @@ def canonical(func, helpers=None):
                 usable = {k: v for k, v in helpers.items() if _simple_helper(v[0])}
                 if not inline_helpers(f, usable, counter):
                     break
+        if consts:
+            bound = set(_params(f)) | {n.id for n in ast.walk(f) if isinstance(n, ast.Name) and isinstance(n.ctx, (ast.Store, ast.Del))}
+            _Subst({k: v for k, v in consts.items() if k not in bound}).visit(f)
         _ExprRewrite().visit(f)
         ast.fix_missing_locations(f)
         for _ in range(8):
@@ -1080,7 +1286,9 @@ def canonical(func, helpers=None):
             c = inline_temps(f)
             e = inline_next_use(f)
             g = drop_dead_locals(f)
-            if not (a or b or c or d or e or g):
+            h = loops_to_comprehensions(f)
+            k = assignments_to_ifexp(f)
+            if not (a or b or c or d or e or g or h or k):
                 break
         params = _params(f)
         _, stores, _ = _defs_and_uses(f)
